@@ -162,6 +162,23 @@ package dispatcher
 //@ macro cntKeyOf(e) = quad4(deref(e.SourceId).ProtocolId, deref(e.SourceId).CounterpartyId, deref(e.DestinationId).ProtocolId, deref(e.DestinationId).CounterpartyId)
 //@ macro amtKeysDistinctG(g) = forall i int, j int trigger(g.DispatchedAmounts[i], g.DispatchedAmounts[j]) :: 0 <= i && i < j && j < len(g.DispatchedAmounts) ==> amtKeyOf(g.DispatchedAmounts[i]) != amtKeyOf(g.DispatchedAmounts[j])
 //@ macro cntKeysDistinctG(g) = forall i int, j int trigger(g.DispatchedCounts[i], g.DispatchedCounts[j]) :: 0 <= i && i < j && j < len(g.DispatchedCounts) ==> cntKeyOf(g.DispatchedCounts[i]) != cntKeyOf(g.DispatchedCounts[j])
+// One write of a totals / count entry: exactly the key built from the two identifiers (and denomination).
+//@ func (d *Dispatcher) SetDispatchedAmount(ctx, sourceID, destID, denom, amountDispatched) (err)
+//@   requires[inv] d != nil
+//@   requires[C17] sourceID != nil && destID != nil && destID.ProtocolId >= 0
+//@   modifies amt_has, amt_val
+//@   letold k = quad4(sourceID.ProtocolId, sourceID.CounterpartyId, idstr(destID.ProtocolId, destID.CounterpartyId), denom)
+//@   ensures[C17] err == nil && amt_has == store(old(amt_has), d.dispatchedAmounts, store(old(amt_has)[d.dispatchedAmounts], k, true)) &&
+//@                amt_val == store(old(amt_val), d.dispatchedAmounts, store(old(amt_val)[d.dispatchedAmounts], k, amountDispatched))
+
+//@ func (d *Dispatcher) SetDispatchedCounts(ctx, sourceID, destID, counts) (err)
+//@   requires[inv] d != nil
+//@   requires[C17] sourceID != nil && destID != nil
+//@   modifies cnt_has, cnt_val
+//@   letold k = quad4(sourceID.ProtocolId, sourceID.CounterpartyId, destID.ProtocolId, destID.CounterpartyId)
+//@   ensures[C17] err == nil && cnt_has == store(old(cnt_has), d.dispatchedCounts, store(old(cnt_has)[d.dispatchedCounts], k, true)) &&
+//@                cnt_val == store(old(cnt_val), d.dispatchedCounts, store(old(cnt_val)[d.dispatchedCounts], k, counts))
+
 //@ func (d *Dispatcher) InitGenesis(ctx, g) (err)
 //@   requires[inv] d != nil
 //@   modifies amt_has, amt_val, cnt_has, cnt_val
